@@ -59,6 +59,10 @@ class IOBlock(stl.Block):
     data: list = field(default_factory=list)
     uses_ptr: bool = False
     note: str = ''
+    twice: bool = False         # the block executes its macro code TWICE (same code instance; harness flag b<k>_rf)
+    mix: str = ''               # executed between the two passes (printers: xor the extra variable into the value)
+    stress: str = ''            # sampled-only size sweep: operands that stress the decimal digit count ('dec' | 'sdec')
+    startup: str = ''           # start-up line of sampled-only sweep blocks ('' = the Config's)
 
     # ---- hooks looked up by stl.block_text / stl.resolve_block
     def ptr_text(self, k, literal=None):
@@ -69,6 +73,11 @@ class IOBlock(stl.Block):
         lines = [f'{pre}:']
         for c in self.calls:
             lines.append('    ' + c.format_map(stl._Keep(env)))
+        if self.twice:
+            lines += [f'    bit.if {pre}_rf, {pre}_ra, {pre}_l0', f'{pre}_ra:', f'    bit.not {pre}_rf']
+            if self.mix:
+                lines.append('    ' + self.mix.format_map(stl._Keep(env)))
+            lines.append(f'    ;{pre}')
         lines.append(f'{pre}_l0: stl.loop')
         for i in range(1, self.exits + 1):
             lines.append(f'{pre}_x{i}: stl.output_char {0x30 + i}')
@@ -89,6 +98,8 @@ class IOBlock(stl.Block):
         for d in self.data:
             lines.append(d.format_map(stl._Keep(env)))
         lines.append(f'{pre}_cz: hex.hex 0x9')
+        if self.twice:
+            lines.append(f'{pre}_rf: bit.bit 0')
         return '\n'.join(lines) + '\n'
 
     def ptr_resolve(self, k, res, w, extra_scratch):
@@ -110,6 +121,8 @@ class IOBlock(stl.Block):
                 found[nm] = found.get(nm, 0) + 1
                 for j in range(tsz[nm]):
                     scratch[(a >> ww) + 1 + 2 * j] = allm
+        if self.twice:
+            scratch[(L[f'{pre}_rf'] >> ww) + 1] = allm          # the harness' own "second pass" flag
         if self.uses_ptr:
             for lbl, (nops, words) in PTR_SCRATCH.items():
                 if lbl in L:
@@ -192,8 +205,13 @@ def make_block(entry, params, w, kind='single'):
                 guard=entry['guard'].format(**p) if entry.get('guard') else '',
                 witnesses=entry['witness'](p) if entry.get('witness') else [],
                 alpha=list(IO.ALPHA[aname]), alpha_name=aname, maxlen=L, data=list(entry['data']),
-                uses_ptr=entry['file'] == 'hex/strings.fj', note=entry.get('note') or '')
+                uses_ptr=entry['file'] == 'hex/strings.fj', note=entry.get('note') or '',
+                twice=bool(entry.get('twice')), mix=((entry.get('twice') or {}).get('mix') or '').format_map(stl._Keep(p)),
+                stress=entry.get('stress') or '', startup=entry.get('startup') or '')
     b.bid0 = bid0
+    if b.stress:
+        # size sweeps are not assembled one by one: a generous size estimate keeps every large block in an image of its own
+        b.est_words = max(3000, 650 * sum(kind_bits(kd) * n for _, kd, n in vars_))
     b.sigmacro = entry.get('sigmacro') or entry['name']
     return b
 
@@ -273,7 +291,40 @@ def sample_strings(rng, b, count):
     return out
 
 
+def stress_values(rng, b, count):
+    """operands that stress the decimal digit count of a k-bit value: 0, 1, 10^j - 1, 10^j, 2^k - 1, 2^(k-1) (+ the negatives
+    for signed printers), then random ones; `count` bounds the list (the extreme ones are kept)"""
+    k = kind_bits(b.vars[0][1]) * b.vars[0][2]
+    M = 1 << k
+    vals = [0, 1, M - 1, M >> 1]
+    pw = []
+    j = 1
+    while 10 ** j - 1 < M:
+        pw.append(j)
+        j += 1
+    order = pw[::-1]                      # the largest digit counts first
+    for j in order:
+        for v in (10 ** j - 1, 10 ** j):
+            if v < M:
+                vals.append(v)
+                if b.stress == 'sdec' and v < M // 2:
+                    vals.append(M - v)
+    out = []
+    for v in vals:
+        if v not in out:
+            out.append(v)
+    keep = max(6, count - 3)
+    out = out[:keep]
+    while len(out) < min(count, M):
+        v = rng.randrange(M)
+        if v not in out:
+            out.append(v)
+    return [([v] + [lo for lo, hi in b.dom[1:]], []) for v in out]
+
+
 def sample_cases(rng, b, count):
+    if b.stress:
+        return stress_values(rng, b, count)
     vals = stl.sample_operands(rng, b, max(2, count // 2))
     strs = sample_strings(rng, b, count)
     if strs == [[]]:
@@ -510,7 +561,8 @@ def standalone_program(cfg, b, values):
 
 def block_def(b):
     return {'calls': b.calls, 'vars': b.vars, 'exits': b.exits, 'temps': b.temps, 'dom': b.dom, 'bid': b.bid, 'data': b.data,
-            'alpha_name': b.alpha_name, 'maxlen': b.maxlen, 'uses_ptr': b.uses_ptr, 'guard': b.guard}
+            'alpha_name': b.alpha_name, 'maxlen': b.maxlen, 'uses_ptr': b.uses_ptr, 'guard': b.guard, 'twice': b.twice, 'mix': b.mix,
+            'startup': b.startup}
 
 
 def describe(exp):
@@ -539,7 +591,8 @@ def report_failure(ctx, cfg, b, values, inb, exp, model_obs, engine_obs, verdict
               'expected_output': None if exp is None else (list(exp[3]) if exp[0] == 'done' else list(exp[1])),
               'variables': [f'{kind} x {n}' for _, kind, n in b.vars],
               'model_observation': model_obs, 'engine_observation': engine_obs, 'found_by': origin,
-              'fj_program': standalone_program(cfg, b, values), 'startup': cfg.startup, 'block_def': block_def(b),
+              'fj_program': standalone_program(dataclasses.replace(cfg, startup=b.startup) if b.startup else cfg, b, values),
+              'startup': b.startup or cfg.startup, 'block_def': block_def(b),
               'how': f'./check {ctx.prop} --replay <this file>   (assembles fj_program with the current repo, runs it on the real engines '
                      'with input_bytes, compares output / consumed input / variables / memory with the documented result)'}
     ctx.violation(sig, what, replay)
@@ -547,6 +600,10 @@ def report_failure(ctx, cfg, b, values, inb, exp, model_obs, engine_obs, verdict
 
 # ---------------------------------------------------------------------------------------------------------
 # the property run
+
+def _size_of(b):
+    return b.params.get('n', 0)
+
 
 def decode_ops(b, ops):
     nv = len(b.vars)
@@ -586,7 +643,10 @@ def run_property(ctx, cfg):
     thm_blocks, smp_blocks = plan_blocks(ctx, cfg)
     try:
         images = stl.assemble_blocks(ctx, cfg, thm_blocks, tag)
-        smp_images = stl.assemble_blocks(ctx, cfg, smp_blocks, tag + 's', presize=False)
+        smp_images = stl.assemble_blocks(ctx, cfg, [b for b in smp_blocks if not b.startup], tag + 's', presize=False)
+        for i, st in enumerate(sorted({b.startup for b in smp_blocks if b.startup})):
+            smp_images += stl.assemble_blocks(ctx, dataclasses.replace(cfg, startup=st), [b for b in smp_blocks if b.startup == st],
+                                              f'{tag}s{i}', presize=False)
     except RuntimeError as e:
         # not even `<startup> ; stl.loop` assembles: nothing can be regenerated, every instance theorem is void
         ctx.broken_tie(f'{prop}: the harness start-up program does not assemble with the current assembler/stl', str(e))
@@ -603,12 +663,15 @@ def run_property(ctx, cfg):
         ww = im['w'].bit_length() - 1
         for b in im['blocks']:
             pyf = IO.spec_fn(b.spec)
-            cs = sample_cases(ctx.rng, b, ctx.n(8, 24) if b.kind != 'sample' else ctx.n(12, 40))
+            cs = sample_cases(ctx.rng, b, (ctx.n(8, 24) if b.kind != 'sample' else ctx.n(12, 40)) if not b.stress else ctx.n(8, 60))
             for wv, wi in b.witnesses:
                 if (list(wv), list(wi)) not in [(list(v), list(s)) for v, s in cs]:
                     cs.append((list(wv), list(wi)))
-            for eng in ('fast', 'native') + (('featured',) if b.kind == 'sample' or ctx.tier == 'thorough' else ()):
-                cc = cs[:3] if eng == 'featured' else cs[:max(5, len(cs) // 2)] if eng == 'native' and ctx.quick() else cs
+            for eng in ('fast', 'native') + (('featured',) if (b.kind == 'sample' and not b.stress) or ctx.tier == 'thorough' else ()):
+                if b.stress:
+                    cc = ([cs[0]] + cs[2:3]) if eng != 'native' else cs         # size sweeps: every operand on native, 0 and 2^n-1 on the Python engine
+                else:
+                    cc = cs[:3] if eng == 'featured' else cs[:max(5, len(cs) // 2)] if eng == 'native' and ctx.quick() else cs
                 cases, exps = [], []
                 for i, (v, s) in enumerate(cc):
                     c, e = engine_case(b, v, s, ww, pyf, i)
@@ -637,7 +700,12 @@ def run_property(ctx, cfg):
                                f'{eng}: {bad}', f'sampled cases on the real {eng} engine')
             elif eng == 'fast' and b.kind != 'sample' and len(tie_samples.get((im['name'], b.bid), [])) < 12:
                 tie_samples.setdefault((im['name'], b.bid), []).append((v, s, e, r['ops']))
-        if b.kind == 'sample':
+        if b.stress:
+            ctx.hist('size_sweep_engine_runs', b.macro, len(cc))
+            cov.setdefault('size_sweep_sizes', {}).setdefault(b.macro, [])
+            if _size_of(b) not in cov['size_sweep_sizes'][b.macro]:
+                cov['size_sweep_sizes'][b.macro].append(_size_of(b))
+        elif b.kind == 'sample':
             ctx.hist('sampled_only_blocks', f'{b.title} w={b.w}', len(cc))
     shown = 0
     for (im, b, eng, cc, exps), rs in zip(meta, results):
@@ -773,7 +841,7 @@ def run_property(ctx, cfg):
     cov['coq_cases_proved'] = proved_cases
     cov['estimated_machine_steps'] = total_steps
     cov['images'] = [{'name': im['name'], 'w': im['w'], 'words': im['res']['nwords'], 'blocks': len(im['blocks'])} for im in images]
-    cov['sampled_only'] = sorted({f'{b.title} w={b.w}' for b in smp_blocks if not b.asm_error})
+    cov['sampled_only'] = sorted({f'{b.title} w={b.w}' for b in smp_blocks if not b.asm_error and not b.stress})
     cov['checker_cmd'] += f' ; coqc (parallel, {fw.NCPU} jobs) on coq/Gen/Img_{tag}_*.v StlP_{tag}_*.v StlT_{tag}_*.v StlTie_{tag}_*.v'
     cov['timing_s'] = {'assembly': round(t_asm - t_start, 1), 'engines': round(t_eng - t_asm, 1),
                        'coq_pieces': round(t_pieces - t_eng, 1), 'rest': round(t_end - t_pieces, 1)}
@@ -892,7 +960,8 @@ def replay(ctx, cfg, path):
     b = IOBlock(bid=bd['bid'], title=rp['block'], macro=rp['macro'], calls=bd['calls'], vars=[tuple(v) for v in bd['vars']],
                 exits=bd['exits'], spec=rp['spec'], dom=[tuple(d) for d in bd['dom']], temps=[tuple(t) for t in bd['temps']],
                 params=rp['params'], w=rp['w'], data=bd['data'], alpha_name=bd['alpha_name'], alpha=list(IO.ALPHA[bd['alpha_name']]),
-                maxlen=bd['maxlen'], uses_ptr=bd['uses_ptr'], guard=bd.get('guard', ''))
+                maxlen=bd['maxlen'], uses_ptr=bd['uses_ptr'], guard=bd.get('guard', ''), twice=bd.get('twice', False),
+                mix=bd.get('mix', ''), startup=bd.get('startup', ''))
     w = rp['w']
     ww = w.bit_length() - 1
     d = str(ctx.scratch / 'replay')
